@@ -4,6 +4,8 @@
 #include "dsp_util.h"
 #include "simrun.h"
 
+#include <memory>
+
 namespace vf {
 namespace {
 
@@ -64,6 +66,7 @@ struct Runner {
     // least-squares accumulation (real RLS, short horizons): normal equations over UNLOCKED samples
     bool track_ls{false};
     std::vector<long double> lsA, lsb;
+    std::unique_ptr<F> twin;   // a copy made mid-stream; it is fed the same calls and must return the same y, e and coeffs()
 
     template<class... A>
     Runner(int algo_, int L_, double p1_, double p2_, uint32_t wseed, int wlen, uint32_t dseed, Result& r, A... a)
@@ -159,7 +162,18 @@ struct Runner {
         set_cur_opf("C12 %s process n=%d at k=%lld", cfg().c_str(), n, static_cast<long long>(k0));
         typename F::Result r;
         try {
-            r = flt.process(xa, da);
+            if (twin) {
+                // the copy first: a copy that shares state with the original would advance the original's tap line
+                const typename F::Result r2 = twin->process(xa, da);
+                r = flt.process(xa, da);
+                if (!same_bits(r2.y, r.y) || !same_bits(r2.e, r.e) || !same_bits(dsplib::base_array<T>(twin->coeffs()), dsplib::base_array<T>(flt.coeffs()))) {
+                    res.fail("C12:copy-deviates", fmt("%s: a copy made mid-stream and fed the same calls returns other y / e / coeffs() than the original (call at k=%lld, %d samples)",
+                                                      cfg().c_str(), static_cast<long long>(k0), n));
+                    return false;
+                }
+            } else {
+                r = flt.process(xa, da);
+            }
         } catch (const std::exception& e) {
             res.fail("C12:exception", cfg() + ": process threw: " + e.what());
             return false;
@@ -275,7 +289,15 @@ struct Runner {
         return true;
     }
 
+    void make_copy() {
+        twin = std::make_unique<F>(flt);
+        res.inc("fault.copied_mid_stream");
+    }
+
     void set_lock(bool l) {
+        if (twin) {
+            twin->set_lock_coeffs(l);
+        }
         if (l == locked) {
             flt.set_lock_coeffs(l);
             return;
@@ -413,6 +435,9 @@ void drive(R& rn, const Plan& pl, Result& res) {
                     return;
                 }
             }
+        } else if (op.kind == "copy") {
+            rn.pattern += "C";
+            rn.make_copy();
         } else if (op.kind == "pause") {
             const int64_t n = op.iarg(0);
             if (n < 1 || n > 100000) {
@@ -530,6 +555,8 @@ Plan gen(uint64_t seed, const std::string& tier) {
         } else if (c < 6) {
             op.kind = "frame";
             op.a = {double(r.logi(1, (algo == 2) ? 300 : 1500))};
+        } else if (c == 5 && r.chance(0.4)) {
+            op.kind = "copy";
         } else if (c == 6 && r.chance(0.5)) {
             op.kind = "pause";
             op.a = {double(r.logi(1, 3 * L))};
